@@ -13,6 +13,8 @@ CHECKS = {
  "C07": ("model_checking", "ActC07: a Deliver step of an event the spec calls Handled leaves the observable state unchanged, evaluated by TLC on every step of every real trace (drivers re-offer all events repeatedly), observable state bound to the real clients.", "6 C07", "TLA+ action property checked by TLC on recorded traces"),
  "C08": ("model_checking", "InvC08 (record = fold of the MLS chain: epoch, name, description, admins, nostr id, relays) evaluated by TLC after every call of every real trace with both the record and the MLS projection bound, plus exhaustive check of the design.", "6 C08", "TLA+ invariant + TLC trace validation (rec/mdata view)"),
  "C03": ("model_checking", "InvC03 (a stored message's holder was a member of the epoch it was sent in) on every state and ActC03 (a client without an operational group neither obtains an application message nor sends) on every step of real membership histories in which observers (never-members, pending, evicted, late joiners) are fed every event and welcome; key knowledge (stored exporter secrets, MLS past-epoch window, rollback restoring older maps) is explicit spec state.", "6 C03", "TLA+ invariant + action property checked by TLC on recorded traces; symbolic cryptography"),
+ "C04": ("model_checking", "InvC04 (a stored message received from somebody else is attributed to the MLS-authenticated sender of its wrapper and its id is the hash of the stored fields, bound through verify_id) on every state, ActC04 (an event authenticated as x's never changes a stored message of another author) and ActC02 (stored payload immutable) on every step of real histories with a malicious member forging rumors (foreign pubkey, random pre-set id, id of an existing message) and replayed deliveries.", "6 C04", "TLA+ invariant + action properties checked by TLC on recorded traces of adversarial histories"),
+ "C05": ("model_checking", "InvC05: every commit on any client's chain that somebody else authored is authorised in the state it applies to (admin, or pure self-update by a member) and no commit carries out a roster change merely proposed by someone else (leave requests excepted; listed finding excused); chain, members, admins and group data are bound to the real clients, so an unauthorised commit accepted by the code is a rejected step. Adversarial commits/proposals are built with raw OpenMLS.", "6 C05", "TLA+ invariant + TLC trace validation of adversarial histories (raw OpenMLS commits)"),
  "C06": ("model_checking", "ActC06: on every step of every real trace, a process_message call whose result class is a refusal (Err, Unprocessable, PreviouslyFailed, IgnoredProposal) leaves the bound observable state (epoch/chain, members, group data, pending commit and proposals, stored messages, record) unchanged, and no call panics; hostile events are spec events of kind junk (12 classes, incl. tampered copies of real commits/messages that follow the real event's framing up to the AEAD check), instantiated by seeded mutation. Listed findings excused narrowly.", "6 C06", "TLA+ action property checked by TLC on recorded traces with spec-level hostile event classes"),
  "C12": ("fault_enumeration", "Hook H2 numbers every storage operation of an API call on SQLite (with read/write flag and transaction-internal ticks); for every index k the process is killed there (panic, connection abandoned), the file reopened, the interrupted call and all later events re-run and the outcome compared with the uninterrupted run. Crash.tla assigns the verdict from the surviving write prefix (intended: always recovered; as built: the listed NoTransactionAroundCall shapes) and TLC validates every experiment against it; storage-level snapshot / rollback / relay replacement must be all-or-nothing. MCCrash checks the crash model's own invariants exhaustively.", "6 C12", "crash-point enumeration via hook H2 with verdicts from a TLA+ crash model (TLC trace validation)"),
  "C14": ("exploration", "Every call of the spec-generated histories (all action/result branches of Marmot.tla incl. rollbacks, evictions, welcomes, restarts) runs with a capturing tracing subscriber and with Display/Debug of every returned error and processing result; a scan for group ids, exporter secrets and the db key (hex and byte-list forms) is attached to each trace line and the trace invariant leak = {} is evaluated by TLC. TLA+ contributes the histories and the coverage labels, not a model of logging — hence exploration.", "6 C14", "scan attached to TLA+-generated histories (trace invariant leak = {})"),
